@@ -42,7 +42,10 @@ def catalogue(tier):
         add("star-size3", 4, ["ab", "ac", "ad"], [3, 2, 2, 1])
         add("grid2x3", 6, ["ab", "bc", "de", "ef", "ad", "be", "cf"])
     for s in S:
-        p = iter(PRIMES)
+        ncell = sum(math.prod(s["sz"][a] for a in c) for c in s["cliques"])
+        # pairwise distinct primes where they fit; larger structures get a generic pattern of small weights so that the joint
+        # stays far below 2^30 (TLC integers)
+        p = iter(PRIMES) if (ncell <= len(PRIMES) and len(s["cliques"]) <= 4) else itertools.cycle([2, 3, 1, 5, 2, 1, 3])
         s["pots"] = []
         for c in s["cliques"]:
             n = 1
